@@ -1,3 +1,15 @@
 from obl.vset_common import get_obls
-OBLIGATIONS = get_obls("b", 0, ((1, 1, 0, 1, 2, 1), (0, 2, 0, 1, 2, 1), (1, 1, 1, 1, 2, 1)))
-META = {"level": "model_checking"}
+
+# b: ldb_version_get over a symbolic multi-level version satisfying the C14 layout invariant
+OBLIGATIONS = (get_obls("b", 0, ((2, 0, 0, 1, 2, 1), (1, 1, 0, 1, 2, 1), (0, 2, 0, 1, 2, 1), (0, 1, 1, 1, 2, 2), (1, 1, 1, 1, 3, 1))) +
+               get_obls("b", 0, ((2, 1, 1, 1, 2, 1), (1, 2, 1, 2, 6, 2), (3, 0, 0, 1, 2, 1), (2, 1, 0, 1, 2, 2)), tier="thorough"))
+
+META = {
+    "level": "model_checking",
+    "level_text": "Bounded model checking (CBMC) of the real lookup mechanisms that make a read return the latest write: ldb_version_get (level-0 newest-first, deeper levels by binary search, tombstones hide older values, snapshot bound) over a symbolic multi-level version against the reference 'newest entry <= snapshot over all entries of all files'; further mechanisms (memtable get, compaction drop rule, flush placement, boundary inputs) are added as separate obligations as they are built.",
+    "level_note": "Trusted: CBMC semantics; the layout invariant of C14 is ASSUMED for the version (it is the subject of C14); the table layer is replaced by the contract of ldb_tables_get; sequences and file numbers range over 1..15 (only compared). Whole histories with real files, caches and reopen cycles are not executed: the composition of the per-mechanism obligations is prose (DESIGN section 6 C01).",
+    "bounds": ["<=3 level-0 files, <=2 files in each of two deeper levels, 1-2 entries per file, 1-byte user keys, any snapshot sequence"],
+    "outside": ["histories, option configurations, cache eviction, reopen cycles", "memtable lookup, compaction drop rule and flush placement until their obligations land"],
+    "models": ["ldb_tables_get contract model", "kit/vp_alloc.c"],
+    "design_ref": "DESIGN.md section 6 C01",
+}
